@@ -160,6 +160,14 @@ let handle = function
       (reverse_ite_cases (mk fuel) (nat_of_int 4000) (expr_of e))
   | L [A "chop"; e; b] -> res_sexp (fun l -> L (List.map sexp_of_expr l)) (chop (mk fuel) (expr_of e) (z_a b))
   | L [A "get_bytes"; e; i; n] -> res_sexp sexp_of_expr (get_bytes (mk fuel) (expr_of e) (z_a i) (z_a n))
+  | L [A "cache_remove"; L entries; L names] ->
+    (* entries: ((key vars) (merged vars)); answer: 1/0 per entry -- does it stay cached after _remove_cached(names)? *)
+    let rec nat_of_i n = if n <= 0 then O else S (nat_of_i (n - 1)) in
+    let nat_of x = nat_of_i (int_of_string (string_of_cz (z_a x))) in
+    let es = List.map (function L [L key; L mv] -> { ekey = List.map nat_of key; ekids = [ { cid = O; cvars = List.map nat_of mv; version = O } ] }
+                              | _ -> failwith "cache entry") entries in
+    let ns = List.map nat_of names in
+    L (List.map (fun e -> A (if List.length (remove_cached [e] ns) = 1 then "1" else "0")) es)
   | L [A "track_run"; L batches; L core_names] ->
     (* constraints are opaque ids with a given name each: ((id name) ...) per add() call; answer: the asserted (name id) list in
        order and the ids that core_of selects for the given names *)
